@@ -11,6 +11,7 @@ import (
 	"google.golang.org/protobuf/types/known/anypb"
 	"math/rand"
 	"reflect"
+	"sort"
 	"strconv"
 	"strings"
 
@@ -635,6 +636,7 @@ func codecCase(rep *Report, s *glue.Subject, d MD, idx int) {
 			rep.Sample("C05", map[string]interface{}{"type": tn, "maps_in_value": nm, "largest_map": maxEnt, "deterministic_bytes_hex": hx(exp)})
 		}
 		outs := map[string]int{}
+		firstBy := map[string]string{} // output -> "history h, marshal k" that produced it first
 		plainOuts := map[string]struct{}{}
 		for hi := 0; hi < h; hi++ {
 			var H proto.Message
@@ -655,7 +657,7 @@ func codecCase(rep *Report, s *glue.Subject, d MD, idx int) {
 					continue
 				}
 			}
-			if hi == 3 && !hasF32SNaN(expIR) { // Clone goes through protoreflect.Value, which quiets float32 sNaNs
+			if hi == 3 && !hasF32SNaN(expIR) && !hasForeignNegZero(expIR) { // Clone goes through protoreflect.Value, which quiets float32 sNaNs; protobuf-go's own merge drops -0.0 inside its types
 				H = proto.Clone(H)
 			}
 			if (hi+idx)%3 == 0 {
@@ -701,6 +703,9 @@ func codecCase(rep *Report, s *glue.Subject, d MD, idx int) {
 					break
 				}
 				outs[string(b)]++
+				if _, ok := firstBy[string(b)]; !ok {
+					firstBy[string(b)] = fmt.Sprintf("history %d, marshal %d", hi, k)
+				}
 				if k < 3 {
 					pb, _ := plainOpts.Marshal(H)
 					plainOuts[string(pb)] = struct{}{}
@@ -716,7 +721,12 @@ func codecCase(rep *Report, s *glue.Subject, d MD, idx int) {
 					break
 				}
 			}
-			rep.Violate("C05", "codec/det-not-unique", tn, fmt.Sprintf("%d distinct deterministic encodings of equal messages, e.g. %s vs %s", len(outs), ex[0], ex[1]), rc)
+			var who []string
+			for k := range outs {
+				who = append(who, firstBy[k])
+			}
+			sort.Strings(who)
+			rep.Violate("C05", "codec/det-not-unique", tn, fmt.Sprintf("%d distinct deterministic encodings of equal messages (first produced by %s), e.g. %s vs %s", len(outs), strings.Join(who, " / "), ex[0], ex[1]), rc)
 		} else if len(outs) == 1 {
 			for k := range outs {
 				if k != string(exp) {
@@ -969,4 +979,12 @@ func emptyBytesToNil(rv reflect.Value, depth int) int {
 		}
 	}
 	return n
+}
+
+// hasForeignNegZero: the value holds a -0.0 float/double inside a message type that protobuf-go implements itself
+// (its merge, used by Clone, drops such fields: a property of the library, not of the generated code).
+func hasForeignNegZero(v *Msg) bool {
+	c := cloneIR(v)
+	dropForeignNegZero(c, false)
+	return !bytes.Equal(SpecEncode(c), SpecEncode(v))
 }
